@@ -19,15 +19,15 @@ Read(p, cg, f, q) == [c |-> 1, pos |-> p, cig |-> cg, dup |-> f = "dup", sec |->
 RefLen(cg) == ISum([k \in 1..Len(cg) |-> IF cg[k][1] \in {0, 2, 3, 7, 8} THEN cg[k][2] ELSE 0])
 Reads1 == {Read(p, cg, f, q) : p \in Positions, cg \in Cigars, f \in Flags, q \in MapQs}
 Fits(rd) == rd.pos + RefLen(rd.cig) <= ContigLen
+(* pairs of reads: counted-quality reads that are plain or flagged duplicate (overlaps, sums, one excluded) *)
+Reads2 == {Read(p, cg, f, 30) : p \in Positions, cg \in Cigars, f \in {"none", "dup"}} \cap {x \in Reads1 : Fits(x)}
 AllBins == {<<1, s, e, "b">> : s \in 0..MaxEnd, e \in 0..MaxEnd}
 Bins == SetToSortSeq({b \in AllBins : b[2] <= b[3]}, LAMBDA x, y : x[2] < y[2] \/ (x[2] = y[2] /\ x[3] < y[3]))
 
 VARIABLES reads, minq, bycount, ph, expect
 vars == <<reads, minq, bycount, ph, expect>>
 Init == /\ reads \in {<<r>> : r \in {x \in Reads1 : Fits(x)}}
-                 \cup (IF TwoReads THEN {<<r1, r2>> : r1 \in {x \in Reads1 : Fits(x) /\ x.mapq = 30 /\ ~x.unmap},
-                                                        r2 \in {x \in Reads1 : Fits(x) /\ x.mapq = 30 /\ ~x.unmap}}
-                       ELSE {})
+                 \cup (IF TwoReads THEN {<<r1, r2>> : r1 \in Reads2, r2 \in Reads2} ELSE {})
         /\ minq \in MinQs /\ bycount \in BOOLEAN
         /\ ph = "call" /\ expect = <<>>
 InScope == bycount \/ \A k \in 1..Len(reads) : ~HasIndelOrSkip(reads[k])
